@@ -260,7 +260,7 @@ def trace_validation(ctx, exe, corrupt=None, sweep=True):
     maxsize = 0
     t0 = time.time()
     for cls in CLASSES:
-        n, mx, ok = x_c03.record_validate(ctx, exe, cls, [cls, str(nk), str(nv), "-1", "full"], hist, INIT, "MapDictTrace.tla",
+        n, mx, ok = x_c03.record_validate(ctx, exe, cls, [cls, str(nk), str(nv), "-1", "full,shades"], hist, INIT, "MapDictTrace.tla",
                                           "MapDictTrace.cfg", corrupt=corrupt)
         total += n
         maxsize = max(maxsize, mx)
@@ -272,7 +272,7 @@ def trace_validation(ctx, exe, corrupt=None, sweep=True):
         for ci, cls in enumerate(CLASSES):
             # the sweep runs with first-byte family 1 (keys straddle 0x80) for two classes and digits for one, rotating with the seed
             enc = "1" if (ci + ctx.seed) % 3 else "0"
-            n, mx, ok = x_c03.record_validate(ctx, exe, cls, [cls, str(snk), str(nv), enc, "compact"], sweep_hist, INIT,
+            n, mx, ok = x_c03.record_validate(ctx, exe, cls, [cls, str(snk), str(nv), enc, "compact,shades"], sweep_hist, INIT,
                                               "MapDictTrace.tla", scfg, tag="sweep-" + cls, env={"VH_WATCHDOG": "1500"})      # one long script: the per-script watchdog of 20 s does not fit
             total += n
             smax = max(smax, mx)
@@ -285,25 +285,36 @@ def trace_validation(ctx, exe, corrupt=None, sweep=True):
 
 def run(ctx):
     exe = harness(ctx)
-    cfg = "MapDict_quick.cfg" if ctx.tier == "quick" else "MapDict_thorough.cfg"
     nk, nv = SCOPE[ctx.tier]
-    g, res = objcheck.tlc_graph(ctx, "MC_MapDict.tla", cfg, workers=4)
-    walks = (300, 40) if ctx.tier == "quick" else (4000, 60)
+    walks = (300, 40) if ctx.tier == "quick" else (2000, 60)
+    if ctx.tier == "quick":
+        # two graphs: values all different under comp (plain str values), and values in groups of two that compare EQUAL yet
+        # are different values (objpair(text, shade): comp sees the key only) - has_value answers differ between the two
+        g, res = objcheck.tlc_graph(ctx, "MC_MapDict.tla", "MapDict_quick.cfg", workers=4)
+        g2, res2 = objcheck.tlc_graph(ctx, "MC_MapDict.tla", "MapDict_quick_shades.cfg", workers=4)
+        plain_mode = "full"
+    else:
+        # one graph (NV = 3, groups {1,2} and {3}); both covers run with shaded values
+        g, res = objcheck.tlc_graph(ctx, "MC_MapDict.tla", "MapDict_thorough.cfg", workers=4)
+        g2 = g
+        plain_mode = "full,shades"
     for cls in CLASSES:
-        # text family 0 (digits) and 1 (first bytes 0x40 / 0x80 / 0xbf ... : ASCII and high-bit keys mixed)
-        objcheck.replay_cover(ctx, g, [tok(INIT)], exe, cls, [cls, str(nk), str(nv), "0", "full"], keyfn, walks=walks, jobs=4,
-                              pairs=(40000 if ctx.tier == "quick" else 100000))
-        objcheck.replay_cover(ctx, g, [tok(INIT)], exe, cls + "/highbit-keys", [cls, str(nk), str(nv), "1", "full"], keyfn,
-                              walks=(walks if ctx.tier == "quick" else (1000, 60)), jobs=4)
+        # cover 1: text family 0 (digits); cover 2: family 1 (first bytes 0x40 / 0x80 / 0xbf ...: ASCII and high-bit keys mixed)
+        # with shaded values
+        objcheck.replay_cover(ctx, g, [tok(INIT)], exe, cls, [cls, str(nk), str(nv), "0", plain_mode], keyfn, walks=walks, jobs=4,
+                              pairs=(40000 if ctx.tier == "quick" else 60000))
+        objcheck.replay_cover(ctx, g2, [tok(INIT)], exe, cls + "/highbit-keys", [cls, str(nk), str(nv), "1", "full,shades"], keyfn,
+                              walks=(walks if ctx.tier == "quick" else (500, 60)), jobs=4)
     trace_validation(ctx, exe)
     ctx.cov["exhaustive"] = True
     ctx.cov["rule"] = ("every transition TLC generates for MapDict in the bounded scope is executed once per class and per key text family "
-                       "(digits / mixed ASCII and high-bit first bytes) as the last step of a script whose prefix consists of already "
-                       "verified transitions; state (full read-back), return value, representation invariants and heap balance are "
-                       "compared after every step; plus random walks over verified transitions, TLC-validated recorded histories on "
-                       "253-key maps whose keys use every byte value 1..255 as first / as last byte, and a TLC-validated size sweep "
-                       "(every operation at sizes n-1, n, n+1 for n = 8 .. 1024 (thorough .. 4096) at the position classes)")
-    ctx.assumptions += ["keys and values are spif_str objects; key order is spif_str_comp (strcmp, unsigned bytes) on texts that order like the numbers",
+                       "(digits / mixed ASCII and high-bit first bytes; plain values / values that compare EQUAL in pairs yet differ) as "
+                       "the last step of a script whose prefix consists of already verified transitions; state (full read-back of the "
+                       "observable value, not comp), return value, representation invariants and heap balance are compared after every "
+                       "step; plus random walks over verified transitions, TLC-validated recorded histories on 253-key maps whose keys "
+                       "use every byte value 1..255 as first / as last byte, and a TLC-validated size sweep (every operation at sizes "
+                       "n-1, n, n+1 for n = 8 .. 1024 (thorough .. 4096) at the position classes)")
+    ctx.assumptions += ["keys are spif_str / spif_url objects, values spif_str / spif_url objects or objpairs keyed by one; key order is spif_str_comp (strcmp, unsigned bytes) on texts that order like the numbers",
                         "ASan build of the current tree (clang -O1)"]
 
 
